@@ -13,6 +13,85 @@ from .common import World, Scheduler, show
 UUID_MAX = 2 ** 128 - 1
 
 
+# ----------------------------------------------------------------------------- replay on the compiled crate
+import json as _json
+import re as _re
+
+_HY = _re.compile(r'([0-9a-f]{8})-([0-9a-f]{4})-([0-9a-f]{4})-([0-9a-f]{4})-([0-9a-f]{12})')
+_ID = _re.compile(r'[0-9a-f]{32}')
+
+
+def canon(obj):
+    """JSON text with every uuid replaced by the index of its first appearance (ids are minted at random by the
+    real code, so only their identity pattern is comparable)"""
+    txt = _HY.sub(r'\1\2\3\4\5', _json.dumps(obj, sort_keys=True))
+    seen = {}
+
+    def rep(mo):
+        h = mo.group(0)
+        if h not in seen:
+            seen[h] = 'u%d' % len(seen)
+        return seen[h]
+    return _ID.sub(rep, txt)
+
+
+def observed(out):
+    """the comparable part of tc-replay's output for a 'cloud' scenario"""
+    def res(r):
+        if isinstance(r, dict) and 'err' in r:
+            return {'err': '*'}
+        return r
+    phases = []
+    for ph in out.get('phases', []):
+        if 'tweaked' in ph:
+            phases.append({'tweaked': ph['tweaked']})
+        elif isinstance(ph.get('results'), dict):
+            phases.append({'results': {k: [res(r) for r in v] for k, v in ph['results'].items()}, 'log': ph['log']})
+        else:
+            phases.append({'results': [res(r) for r in ph.get('results', [])], 'log': ph.get('log')})
+    store = [{'name': o['name'], 'value': o['value'] if o['name'] == 'latest' else None, 'creation': o['creation']} for o in out.get('store', [])]
+    return {'phases': phases, 'store': store}
+
+
+def compare_with_prediction(pred, out):
+    """(equal, detail): does the compiled crate do exactly what the interpreter predicted for this scenario?"""
+    if not isinstance(out, dict) or 'phases' not in out:
+        return False, {'replay_output': str(out)[:400]}
+    if not out.get('order_matched', True):
+        return False, {'note': 'the randomly minted version ids never had the wanted relative order', 'tries': out.get('tries')}
+    notes = [n for ph in out['phases'] for n in ph.get('notes', [])]
+    obs = observed(out)
+    a, b = canon(pred), canon(obs)
+    if a == b and not notes:
+        return True, {'tries': out.get('tries')}
+    d = {'notes': notes}
+    for k, (p, o) in enumerate(zip(pred['phases'], obs['phases'])):
+        if canon(p) != canon(o):
+            d['first_differing_phase'] = k
+            d['predicted'] = _json.loads(canon(p))
+            d['real'] = _json.loads(canon(o))
+            break
+    else:
+        d['predicted_store'] = _json.loads(canon(pred))['store']
+        d['real_store'] = _json.loads(canon(obs))['store']
+    return False, d
+
+
+def replay_scenario(v):
+    return v['witness']['cloud']['scenario']
+
+
+def replay_judge(scn, out, v):
+    """the counterexample is confirmed when the compiled crate behaves exactly as the interpreter predicted on it
+    (same results, same request log, same store content): the property oracle was evaluated on those values"""
+    eq, d = compare_with_prediction(v['witness']['cloud']['predicted'], out)
+    return (True if eq else False), d
+
+
+def validate_samples(s, out):
+    return compare_with_prediction(s['predicted'], out)
+
+
 class Store:
     """the shared object store: name -> (value, creation time); listing order = creation order"""
 
@@ -56,43 +135,74 @@ class Listing:
         if self.done:
             return Ready(NONE())
 
-        def fetch(I2):
+        return PagedNext(self)
+
+    def fetch(self, I2):
+        if True:
             svc = self.svc
             err = svc.maybe_fault(I2, 'list', self.prefix)
             if err is not None:
                 self.done = True
+                if not isinstance(err, Adt):
+                    err = Err(I2.mk_enum('Error', 'Server', ['injected service fault']))
                 return Some(err)
             page = []
+            taken = 0
             for o in svc.store.objs:
                 if o['seq'] <= self.cursor:
                     continue
-                if len(page) >= svc.page_size:
+                if taken >= svc.page_size:
                     break
                 self.cursor = o['seq']
+                taken += 1
                 if I2.ctx.branch(strings._affix(deref(o['name']), self.prefix, True)):
                     page.append(Adt('ObjectInfo', 0, [o['name'], o['creation']]))
             else:
                 self.done = True
-            svc.store.log.append((svc.client, 'list', self.prefix))
             if not page:
                 if self.done:
                     return NONE()
-                # an empty page that is not the last: the caller's next() sees the following page
-                self.buf = []
-                return self.next_sync(I2)
+                # an empty page that is not the last: the next page is one more request
+                return CONTINUE
             self.buf = page[1:]
             return Some(Ok(page[0]))
-        return svc_future(self.svc, fetch, 'list')
-
-    def next_sync(self, I):
-        f = self.next(I)
-        while isinstance(f, PendingOnce):
-            return f.thunk(I)
-        return f.v
 
 
-def svc_future(svc, thunk, label):
-    return PendingOnce(thunk, label)
+CONTINUE = object()
+
+
+class PagedNext:
+    """the future of AsyncObjectIterator::next: one Service request per page fetched"""
+
+    def __init__(self, listing):
+        self.l, self.leaf = listing, None
+
+    def poll_model(self, I, cx):
+        from mirsym.models.core import poll_value
+        while True:
+            if self.leaf is None:
+                self.leaf = PendingOnce(self.l.fetch, 'list')
+            r = poll_value(I, self.leaf, cx)
+            if r.variant != 0:
+                return r
+            v = r.fields[0]
+            self.leaf = None
+            if v is CONTINUE:
+                continue
+            return Adt('Poll', 0, [v])
+
+
+class Then:
+    """future adaptor: apply f to the result when ready"""
+
+    def __init__(self, fut, f):
+        self.fut, self.f = fut, f
+
+    def poll_model(self, I, cx):
+        r = I.poll_future(self.fut, cx)
+        if r.variant != 0:
+            return r
+        return Adt('Poll', 0, [self.f(r.fields[0])])
 
 
 class ServiceHandle:
@@ -112,9 +222,12 @@ class ServiceHandle:
 
     def maybe_fault(self, I, kind, name):
         self.store.nreq += 1
+        self.store.log.append((self.client, kind, name))
         if self.fault is None:
             return None
         k = self.fault(I, kind, name, self.store.nreq)
+        if k is not None:
+            self.w.note_fault(self.client, k)
         if k == 'before':
             return Err(I.mk_enum('Error', 'Server', ['injected service fault']))
         return k
@@ -126,7 +239,6 @@ class ServiceHandle:
             if isinstance(k, Adt):
                 return k
             r = effect(I)
-            self.store.log.append((self.client, kind, name))
             if k == 'after':
                 return Err(I.mk_enum('Error', 'Server', ['injected service fault (reply lost)']))
             return r
@@ -200,6 +312,10 @@ class CloudWorld(World):
         I.env['system_now'] = self.system_now
         self.secret = PyVec([115, 101, 99])         # b"sec"
         self.servers = {}
+        # recording for the replay on the compiled crate
+        self.phases, self.cur, self.racing = [], None, False
+        self.client_ids = {}
+        I.env['rand_observer'] = self.on_draw
 
     def new_uuid(self, I=None):
         if self.concrete_ids:
@@ -227,7 +343,210 @@ class CloudWorld(World):
     def service_now(self):
         return self.system_now()
 
+    # ------------------------------------------------------------------ recording (scenario + predicted observables)
+    def cid(self, client):
+        if client not in self.client_ids:
+            self.client_ids[client] = len(self.client_ids)
+        return self.client_ids[client]
+
+    def _phase(self, kind):
+        if self.racing:
+            return self.cur
+        if self.cur is None or self.cur['kind'] != kind:
+            self.cur = {'kind': kind, 'log0': len(self.store.log), 'calls': [], 'tweaks': [], 'faults': []}
+            self.phases.append(self.cur)
+        return self.cur
+
+    def client_of(self, srv):
+        for cl, (s, h) in self.servers.items():
+            if s is srv:
+                return cl
+        raise KeyError('unknown server handle')
+
+    def _rec(self, srv, op, fut, **args):
+        cl = self.client_of(srv)
+        call = dict(client=cl, op=op, result=None, draws=[], prob=None, **args)
+        if op == 'add_version':
+            call['prob'] = srv.fields[2] if isinstance(srv, Adt) and len(srv.fields) > 2 else None
+        if self.racing:
+            self.cur['programs'].setdefault(cl, []).append(call)
+        else:
+            self._phase('seq')['calls'].append(call)
+        self._last_call = getattr(self, '_last_call', {})
+        self._last_call[cl] = call
+
+        def done(r):
+            call['result'] = r
+            return r
+        return Then(fut, done)
+
+    def on_draw(self, I, terms):
+        if len(terms) != 1:
+            return
+        sched = I.env.get('scheduler')
+        lc = getattr(self, '_last_call', {})
+        call = None
+        if sched is not None and sched.current is not None:
+            cl = sched.clients[sched.current] if sched.clients else sched.current
+            call = lc.get(cl)
+        elif not self.racing and self.cur is not None and self.cur.get('calls'):
+            call = self.cur['calls'][-1]
+        if call is not None:
+            call['draws'].append(terms[0])
+
+    def begin_race(self):
+        self.cur = {'kind': 'race', 'log0': len(self.store.log), 'programs': {}, 'faults': [], 'schedule': None}
+        self.phases.append(self.cur)
+        self.racing = True
+        return self.cur
+
+    def end_race(self, sched):
+        self.cur['schedule'] = [(sched.clients[t] if sched.clients else t) for t, _ in sched.trace]
+        self.racing, self.cur = False, None
+
+    def note_fault(self, client, how):
+        ph = self.cur if self.cur is not None else self._phase('seq')
+        n = len([1 for (cl, k, nm) in self.store.log[ph['log0']:] if cl == client and nm != 'salt'])
+        ph['faults'].append({'client': client, 'nth': n, 'how': how})
+
+    def tweak_put(self, name, value, creation):
+        self.store.seq += 1
+        self.store.objs.append({'name': name, 'value': value, 'creation': creation, 'seq': self.store.seq})
+        self._phase('tweak')['tweaks'].append(('put', name, value, creation))
+
+    def tweak_creation(self, o, t):
+        o['creation'] = t
+        self._phase('tweak')['tweaks'].append(('creation', o['name'], t))
+
+    def record(self, m):
+        """(scenario for tc-replay kind 'cloud', predicted observables) under the model m"""
+        labels = {}
+
+        def val(v):
+            return show(v, m)
+
+        def lab(v):
+            x = val(v)
+            if x == 0:
+                return 0
+            if x not in labels:
+                labels[x] = len(labels) + 1
+            return {'l': labels[x]}
+
+        def hexid(v):
+            x = val(v)
+            return 0 if x == 0 else '%032x' % x
+
+        def name_scn(n):
+            n = deref(n)
+            if isinstance(n, str):
+                return n
+            return [s if isinstance(s, str) else lab(s[1]) for s in n.segs]
+
+        def name_txt(n):
+            n = deref(n)
+            if isinstance(n, str):
+                return n
+            out = ''
+            for s in n.segs:
+                if isinstance(s, str):
+                    out += s
+                else:
+                    h = '%032x' % val(s[1])
+                    out += h if s[0] == 'uuid' else '-'.join([h[:8], h[8:12], h[12:16], h[16:20], h[20:]])
+            return out
+
+        def blist(p):
+            p = deref(p)
+            return [val(b) for b in p.items]
+
+        def res_of(call):
+            r, op = call['result'], call['op']
+            if r is None:
+                return None
+            if r.variant != 0:
+                return {'err': '*'}
+            v = r.fields[0]
+            if op == 'add_version':
+                res = v.fields[0]
+                return {'ok': hexid(res.fields[0])} if res.variant == 0 else {'expected': hexid(res.fields[0])}
+            if op == 'get_child_version':
+                if v.variant == 0:
+                    return {'none': True}
+                return {'version': {'id': hexid(v.fields[0]), 'parent': hexid(v.fields[1]), 'payload': blist(v.fields[2])}}
+            if op == 'get_snapshot':
+                if v.variant == 0:
+                    return {'none': True}
+                t = v.fields[0]
+                return {'snapshot': {'version': hexid(t.fields[0]), 'payload': blist(t.fields[1])}}
+            return {'ok': True}
+
+        def call_scn(call):
+            d = {'client': self.cid(call['client']), 'op': call['op']}
+            if 'parent' in call:
+                d['parent'] = lab(call['parent'])
+            if 'version' in call:
+                d['version'] = lab(call['version'])
+            if 'payload' in call:
+                d['payload'] = blist(call['payload'])
+            r = call['result']
+            if call['op'] == 'add_version':
+                # the implicit cleanup runs iff the random draw is below the handle's cleanup probability
+                prob = val(call['prob']) if call['prob'] is not None else 0
+                ran = bool(call['draws']) and val(call['draws'][0]) < prob
+                d['cleanup_probability'] = 255 if ran else 0
+                if r is not None and r.variant == 0 and r.fields[0].fields[0].variant == 0:
+                    d['bind'] = lab(r.fields[0].fields[0].fields[0])['l']
+            if call['op'] == 'get_child_version' and r is not None and r.variant == 0 and r.fields[0].variant == 1:
+                x = lab(r.fields[0].fields[0])
+                if x != 0:
+                    d['bind'] = x['l']
+            return d
+
+        def log_of(ph, k):
+            end = self.phases[k + 1]['log0'] if k + 1 < len(self.phases) else len(self.store.log)
+            return [[self.cid(cl), kind, name_txt(nm)] for (cl, kind, nm) in self.store.log[ph['log0']:end] if deref(nm) != 'salt']
+
+        def faults_of(ph):
+            return [{'client': self.cid(f['client']), 'nth': f['nth'], 'how': f['how']} for f in ph['faults']]
+        scn_ph, pred_ph = [], []
+        for k, ph in enumerate(self.phases):
+            if ph['kind'] == 'seq':
+                calls = [cl for cl in ph['calls'] if cl['result'] is not None]
+                scn_ph.append({'seq': [call_scn(cl) for cl in calls], 'faults': faults_of(ph)})
+                pred_ph.append({'results': [res_of(cl) for cl in calls], 'log': log_of(ph, k)})
+            elif ph['kind'] == 'tweak':
+                tw = []
+                for t in ph['tweaks']:
+                    if t[0] == 'put':
+                        tw.append({'put': {'name': name_scn(t[1]), 'value': blist(t[2]), 'creation': val(t[3])}})
+                    else:
+                        tw.append({'creation': {'name': name_scn(t[1]), 't': val(t[2])}})
+                scn_ph.append({'tweak': tw})
+                pred_ph.append({'tweaked': len(tw)})
+            else:
+                progs = {str(self.cid(cl)): [call_scn(x) for x in calls] for cl, calls in ph['programs'].items()}
+                scn_ph.append({'race': {'programs': progs, 'schedule': [self.cid(x) for x in (ph['schedule'] or [])], 'faults': faults_of(ph)}})
+                pred_ph.append({'results': {str(self.cid(cl)): [res_of(x) for x in calls] for cl, calls in ph['programs'].items()},
+                                'log': log_of(ph, k)})
+        store = []
+        for o in self.store.objs:
+            nm = name_txt(o['name'])
+            if nm == 'salt':
+                continue
+            if nm == 'latest':
+                lv = self.latest()
+                v = ('%032x' % val(lv)) if lv is not None else '?'
+            else:
+                v = None
+            store.append({'name': nm, 'value': v, 'creation': val(o['creation'])})
+        order = [l for _, l in sorted(labels.items())]
+        scn = {'kind': 'cloud', 'now': val(self.system_now()), 'page_size': self.page_size, 'secret': blist(self.secret),
+               'phases': scn_ph, 'order': order}
+        return scn, {'phases': pred_ph, 'store': store}
+
     def new_server(self, client, secret=None):
+        self.cur = None if not self.racing else self.cur
         h = ServiceHandle(self, self.store, client)
         fut = self.I.call('CloudServer::new', [h, clone_val(secret or self.secret)])
         r = self.I.block_on(fut)
@@ -239,19 +558,21 @@ class CloudWorld(World):
 
     # futures of the Server trait methods on the real CloudServer
     def f_add_version(self, srv, parent, payload):
-        return self.I.call('<CloudServer as Server>::add_version', [mkref(srv), parent, payload])
+        return self._rec(srv, 'add_version', self.I.call('<CloudServer as Server>::add_version', [mkref(srv), parent, payload]),
+                         parent=parent, payload=clone_val(payload))
 
     def f_get_child_version(self, srv, parent):
-        return self.I.call('<CloudServer as Server>::get_child_version', [mkref(srv), parent])
+        return self._rec(srv, 'get_child_version', self.I.call('<CloudServer as Server>::get_child_version', [mkref(srv), parent]), parent=parent)
 
     def f_add_snapshot(self, srv, vid, payload):
-        return self.I.call('<CloudServer as Server>::add_snapshot', [mkref(srv), vid, payload])
+        return self._rec(srv, 'add_snapshot', self.I.call('<CloudServer as Server>::add_snapshot', [mkref(srv), vid, payload]),
+                         version=vid, payload=clone_val(payload))
 
     def f_get_snapshot(self, srv):
-        return self.I.call('<CloudServer as Server>::get_snapshot', [mkref(srv)])
+        return self._rec(srv, 'get_snapshot', self.I.call('<CloudServer as Server>::get_snapshot', [mkref(srv)]))
 
     def f_cleanup(self, srv):
-        return self.I.call('CloudServer::cleanup', [mkref(srv)])
+        return self._rec(srv, 'cleanup', self.I.call('CloudServer::cleanup', [mkref(srv)]))
 
     def run(self, fut):
         return self.I.block_on(fut)
